@@ -869,6 +869,9 @@ func (m *Monitor) afterCall(i int, op *Op, f *Fn, rec *OpRec) {
 				m.violate("C13", "C13.cycle-misclassified", "Decorate rejection reports IsCycleDetected")
 			}
 		}
+		if cl == VCycle && op.Kind == OpProvide && op.Invalid == "" && pc != nil {
+			m.checkCyclePath(OpProvide, pc.reg, rec)
+		}
 		if cl == VOk && op.Invalid == "" {
 			if op.Kind == OpProvide {
 				m.regs = append(m.regs, pc.reg)
@@ -888,9 +891,81 @@ func (m *Monitor) afterCall(i int, op *Op, f *Fn, rec *OpRec) {
 	m.inv = nil
 }
 
+// fnDotName: the "package.Name" dig reports for a harness function.
+func fnDotName(f *Fn) string {
+	if f.Pool > 0 {
+		return poolName(f.Pool - 1)
+	}
+	return "reflect.makeFuncStub"
+}
+
+// checkCyclePath (C05: "a reported cycle path is a real closed path"): the path of a cycle rejection,
+// read through the hook VerifCyclePath, must be closed and every step must be a dependency: the
+// constructor named first consumes (through any parameter kind) a key that the constructor named next
+// produces. candidate is the constructor a rejected Provide tried to add. An Invoke may also report the
+// single constructor that was met again while it was being built.
+func (m *Monitor) checkCyclePath(kind string, candidate *Reg, rec *OpRec) {
+	path, _, ok := dig.VerifCyclePath(rec.Err)
+	if !ok {
+		return
+	}
+	m.stats["cycle.path-checked"]++
+	if len(path) == 0 {
+		m.violate("C05", "C05.cycle-path", "cycle rejection with an empty path: %v", rec.Err)
+		return
+	}
+	// dig lists the constructors met along a closed path of its graph, which also holds value-group
+	// nodes: when the search started at a group node the list is a rotation that does not repeat its
+	// first constructor. The list is therefore read cyclically: every step, including the one from the
+	// last entry back to the first, must be a dependency (a single entry must depend on itself).
+	reported := append([]string(nil), path...)
+	if len(path) >= 2 && path[0] == path[len(path)-1] {
+		path = path[:len(path)-1]
+	}
+	if kind == OpInvoke && len(path) == 1 && len(reported) == 1 {
+		// the constructor that was met again while it was being built (runtime guard): the members of
+		// the cycle in between are not known to dig at that point
+		m.stats["cycle.path-single"]++
+		return
+	}
+	regs := append([]*Reg(nil), m.regs...)
+	if candidate != nil {
+		regs = append(regs, candidate)
+	}
+	byName := map[string][]*Reg{}
+	for _, r := range regs {
+		byName[fnDotName(r.F)] = append(byName[fnDotName(r.F)], r)
+	}
+	for i := 0; i < len(path); i++ {
+		next := path[(i+1)%len(path)]
+		found := false
+		for _, a := range byName[path[i]] {
+			for _, b := range byName[next] {
+				for _, p := range a.F.Params {
+					if _, ok := b.prod[p.K]; ok {
+						found = true
+					}
+				}
+			}
+		}
+		if len(byName[path[i]]) == 0 || len(byName[next]) == 0 {
+			m.violate("C05", "C05.cycle-path", "reported cycle path %v names a function that is no constructor of this container (step %d)", reported, i)
+			return
+		}
+		if !found {
+			m.violate("C05", "C05.cycle-path", "reported cycle path %v: step %d (%s -> %s) is not a dependency", reported, i, path[i], next)
+			return
+		}
+		m.stats["cycle.path-steps"]++
+	}
+}
+
 func (m *Monitor) afterInvoke(i int, op *Op, f *Fn, rec *OpRec) {
 	cl := rec.Verdict
 	st := m.inv
+	if cl == VCycle && op.Invalid == "" && !m.w.h.Opts.Dry {
+		m.checkCyclePath(OpInvoke, nil, rec)
+	}
 	if op.Invalid != "" {
 		if rec.Panic != nil {
 			m.violate("C14", "C14.panic", "Invoke panicked on invalid input (%s): %v", op.Invalid, rec.Panic)
